@@ -131,11 +131,11 @@ type World struct {
 	hs          *pstore[*types.SignedHeader] // the node's P2P header store (survives restarts of the node)
 	ds          *pstore[*types.Data]         // the node's P2P data store
 	p2pStart    uint64                       // chain height when the store loops of the running process started
-	prop        string          // FNODE_PROP: report only the findings of this property ("" = all)
-	lastInc     uint64          // DA-included height after the previous op
-	fromInc     uint64          // ... when the last run / start began
-	startInc    uint64          // ... at the last (re)start
-	obsH        map[uint64]bool // ghost: the header of block k was in a DA height this node fetched successfully
+	prop        string                       // FNODE_PROP: report only the findings of this property ("" = all)
+	lastInc     uint64                       // DA-included height after the previous op
+	fromInc     uint64                       // ... when the last run / start began
+	startInc    uint64                       // ... at the last (re)start
+	obsH        map[uint64]bool              // ghost: the header of block k was in a DA height this node fetched successfully
 	obsD        map[uint64]bool
 	obsAt       map[string]map[uint64]bool // "h:<k>" / "d:<k>" -> DA heights at which it was observed
 	gaveD       map[uint64]bool            // ghost, per process: the genuine data of block k was handed to the running node
@@ -1408,7 +1408,6 @@ func (w *World) monitorInclusion(scanned bool) {
 			e.Height(), head, w.dastart, all, inc, w.startKind))
 }
 
-
 func (w *World) isEmptyBlock(k uint64) bool {
 	_, d, err := w.prod.Store.GetBlockData(context.Background(), k)
 	return err == nil && len(d.Txs) == 0
@@ -1486,6 +1485,7 @@ func (w *World) monitorRun(log []string) {
 //     holds something else than the genuine data (the junk) or nothing (dropped when the header arrived)
 //   - tx-list-repeats-an-earlier-block: another block with the same tx list is applied, or its data was handed to the
 //     running node
+//
 // Anything else is "" (= a new violation, reported as .../other).
 func (w *World) knownStall(h, head uint64) string {
 	ctx := context.Background()
